@@ -182,9 +182,11 @@ def main(ck):
         # translations of the whole scene: if the engine itself then produces a conforming answer the case is
         # counted as translation-variant (not asserted); a consistent error still fails.
         ok = False
-        for _ in range(3):
-          o = scale * rng.uniform(-2, 2, 3)
-          gg.set_pose(lib, m, d, PA + o, RA, PB + o, RB)
+        for attempt in range(6):
+          # 3 rigid translations of the scene, then 3 rotations of geom B by 1e-10 rad about its own centre
+          o = scale * rng.uniform(-2, 2, 3) if attempt < 3 else np.zeros(3)
+          RBp = RB if attempt < 3 else gg.axis_angle(gg.rand_unit(rng), 1e-10) @ RB
+          gg.set_pose(lib, m, d, PA + o, RA, PB + o, RBp)
           S2 = [gr.shape_from_model(m, d, 0), gr.shape_from_model(m, d, 1)]
           soft2 = []
           check_pose(ck, lib, m, d, S2, M, G, tol_ccd, info, calib, stats, soft2, False)
@@ -203,7 +205,8 @@ def main(ck):
                            'and the contact normal is arbitrary (47..180 deg off observed)',
       'gjk-translation-variant': 'native GJK stagnates with an error far above ccd_tolerance (1.5e-5 at tolerance 1e-10, '
                                  'sphere-ellipsoid) depending on the last bits of the coordinates: a rigid translation of both '
-                                 'geoms changes mj_geomDistance / contact dist by >> tolerance',
+                                 'geoms (or a 1e-10 rad rotation of one of them) changes mj_geomDistance / contact dist by >> tolerance; '
+                                 'box-box example: 1.1165 reported for boxes 0.0336 apart',
       'makeframe-parallel-tangent': 'mjc_PlaneCapsule passes the capsule axis as contact tangent; when the axis is exactly '
                                     'parallel to the plane normal mju_makeFrame normalises a zero vector to (1,0,0) and the '
                                     'contact frame is not orthonormal (|F F^T - I| = 0.38)',
